@@ -7,6 +7,7 @@ import (
 	"encoding/json"
 	"errors"
 	"fmt"
+	"math"
 	"os"
 
 	sentinel "github.com/alibaba/sentinel-golang/api"
@@ -544,6 +545,43 @@ func (P) Exec(c *harness.Case) *harness.Outcome {
 		if bad {
 			o.Fail("C12.blocked-probe-ended-another-passage", int(e.seq), "a probe that was blocked behind the breaker reported HalfOpen->Open (seq %d) from its exit hook, but the passage to half-open it ended is not its own: transitions %v (its own passage had ended already; the probe of the current one is still in flight)", e.seq, fmtEvents(evs))
 			return o
+		}
+	}
+	// (g) an opening belongs to the closed period it ends. Closing a breaker clears its statistics, so what a
+	// Closed->Open after a HalfOpen->Closed can rest on are the failed completions that were not over yet when the
+	// closing call began (they may have been counted after the clearing) and that were invoked before the opening
+	// was reported. With an error-count threshold of T there must be T of them - a completion that examined the
+	// breaker in an EARLIER closed period, with that period's count, must not open this one.
+	if r.Strategy == model.ErrCount && r.Threshold >= 2 && r.Threshold == math.Floor(r.Threshold) {
+		for i, e := range evs {
+			if !(e.from == model.Closed && e.to == model.Open) {
+				continue
+			}
+			var closed *levent
+			for _, h := range evs[:i] {
+				if h.from == model.HalfOpen && h.to == model.Closed {
+					closed = h
+				}
+			}
+			if closed == nil {
+				continue // (the first closed period also holds what the prelude left: not judged)
+			}
+			o.Probe("opening_after_a_close_judged")
+			// (the clearing lies somewhere inside the closing call, the report of the close comes last)
+			cut := closed.seq
+			if closed.call != nil {
+				cut = closed.call.inv
+			}
+			n := 0
+			for _, c := range all {
+				if c.kind == "complete" && c.bad && !c.handback && c.inv < e.seq && (!c.done || c.ret > cut) {
+					n++
+				}
+			}
+			if float64(n) < r.Threshold {
+				o.Fail("C12.opened-on-the-count-of-an-earlier-period", int(e.seq), "error-count breaker, threshold %v: the breaker was closed (seq %d, statistics cleared) and opened again (seq %d, by caller %d) although at most %d failed completion(s) can have been counted in between - the caller examined the breaker in an earlier closed period and opened this one with that period's count. Transitions %v", r.Threshold, closed.seq, e.seq, e.task, n, fmtEvents(evs))
+				return o
+			}
 		}
 	}
 	// (b) retry timeout respected
